@@ -142,8 +142,9 @@ class Labellings(ProductSystem):
         n = len(cids)
         k = base[3]
         nj = len(at["J"])
-        nv = nj + k * len(at["I"])
-        ne = (k + 1) * len(at["I"])
+        ks = T.sample_counts(at, k)
+        nv = nj + sum(ks)
+        ne = sum(x + 1 for x in ks)
         ax = {}
         cl = self.classes
         if "orient_all" in cl:
@@ -153,7 +154,7 @@ class Labellings(ProductSystem):
         if "shift" in cl:
             sh = [{}]
             for c in cids:
-                L = sum(1 + k for _ in at["C"][c])
+                L = sum(1 + ks[ii] for ii, _ in at["C"][c])
                 for s in sorted({1, L // 2, L - 1}) if n <= 7 else sorted({1, L - 1}):
                     sh.append({c: s})
             adj = T.cell_adjacency(at)
@@ -163,7 +164,7 @@ class Labellings(ProductSystem):
             ax["shift"] = sh
         if "vmap" in cl:
             vm = [["id"], ["rev"], ["gap", 3, 7], ["off", 10 ** 6]]
-            tr = [(0, 1), (0, nj - 1), (1, nj // 2), (0, nj), (nj - 1, nv - 1), (nj, nj + 1), (nj, nv - 1), (2, nj + 3), (nj + 1, nj + k * 3), (3, 4)]
+            tr = [(0, 1), (0, nj - 1), (1, nj // 2), (0, nj), (nj - 1, nv - 1), (nj, nj + 1), (nj, nv - 1), (2, nj + 3), (nj + 1, nj + sum(ks[:3])), (3, 4)]
             vm += [["swap", i, j] for i, j in tr if i != j and j < nv]
             ax["vmap"] = vm
         if "vperm720" in cl:
@@ -276,7 +277,8 @@ def build(tier, seed):
                 _Counting("orientations-all", [["v5x5", None, M, 1]], 1, ["orient_all"]),
                 _Counting("junction-perms-720", [["v5x5", None, M, 1]], 1, ["vperm720"]),
                 _Counting("insertion-orders-all", [["v5x5", None, M, 1]], 1, ["order_all"]),
-                _Counting("lattice-d1", [["square3x3", None, ["id"], 2]], 1, all_cl)]   # b6 contains a cell outside every internal interface
+                _Counting("lattice-d1", [["square3x3", None, ["id"], 2]], 1, all_cl),
+                _Counting("mixed-point-counts-d1", [["v5x5", b6, M, ["mod3", 0, 3, 1]], ["lens", None, M, ["mod3", 2, 0, 1]]], 1, all_cl)]   # b6 contains a cell outside every internal interface
     b7 = first_connected("v6x5", 7)
     return [_Counting("labels-d2", [["v5x5", None, M, 2], ["v6x5", b7, M, 2], ["square3x3", None, ["id"], 2]], 2, all_cl),
             _Counting("labels-d1-unique", [["v6x5", None, M, 2], ["v6x6p%d" % (seed + 1), None, ["mc", 0.12, 0.05], 1]], 1, all_cl),
@@ -284,4 +286,5 @@ def build(tier, seed):
             _Counting("junction-perms-720", [["v5x5", None, M, 1], ["v6x5", None, ["id"], 2]], 1, ["vperm720"]),
             _Counting("insertion-orders-all", [["v5x5", None, M, 2], ["v6x5", None, M, 1]], 1, ["order_all"]),
             _Counting("labels-d3", [["v5x5", first_connected("v5x5", 5), M, 2]], 3, all_cl),
+            _Counting("mixed-point-counts-d2", [["v5x5", None, M, ["mod3", 0, 3, 1]], ["lens", None, M, ["mod3", 2, 0, 1]], ["fan5", None, M, ["mod3", 1, 0, 4]]], 2, all_cl),
             _Counting("hanging-cell-d2", [["v6x5", first_with_hanging("v6x5", 8), ["mc", 0.12, 0.05], 1]], 2, all_cl)]
